@@ -37,6 +37,7 @@ expect() {
     C03k-*) echo "C11" ;;
     C13m-*) echo "C08" ;;
     C05m-*|C05n-*|C10m-*|C12m-*|C18m-*|C19m-*) echo "" ;; # need an interleaving or an application habit outside what is enumerated (DESIGN.md §9, §11)
+    C13p-*) echo "" ;; # not a valid seed: the repository's own randomized test fails with it in about half of the runs
     C17j*) echo "C15" ;; # the stale writable list is client metadata; the routing rig has no leadership change between messages
     C17i*) echo "C17 C15" ;;
     C19-retry-budget-off-by-one) echo "" ;; # deliberately not flagged (DESIGN.md §11)
